@@ -391,7 +391,7 @@ def run(repo: Repo, rep: Report, tier: str) -> None:
     from ..core.report import Only as _OnlyX
     from ..core import corpus as _corpusX
     from . import c03 as _c03x
-    _c03x.run(repo, _OnlyX(rep, {"R03.1"}), tier)
+    _c03x.run(repo, _OnlyX(rep, {"R03.1", "R03.4"}), tier)
 
 def _fieldless(repo: Repo, rep: Report) -> None:
     fi = repo.func(M_BUILDER, "CodeBuilder._add_unpack_method_lines")
@@ -436,3 +436,7 @@ LEVEL_TEXT += _ADD19
 _ADD22 = ' Borrowed: R03.1 (the unpackers are the documented coercions, which reject non-conforming input).'
 EXPLANATION += _ADD22
 LEVEL_TEXT += _ADD22
+
+_ADDR5D = ' Borrowed: R03.4 as well (TypedDict / NamedTuple helper bodies: optional keys are read with get(..., MISSING), which fails on a non-mapping).'
+EXPLANATION += _ADDR5D
+LEVEL_TEXT += _ADDR5D
